@@ -128,7 +128,14 @@ def engine_quirk(ex, case, ref=None):
         return "sqlite_parser_stack"  # expression nesting beyond the SQLite parser's stack (thorough-tier depths)
     if exc_name(ex) == "InvalidOperationError" and "conversion from" in msg and "failed" in msg and (
             "NaN" in msg or "inf" in msg):
-        return "nan_or_inf_to_int"  # NaN / infinity are outside the value domain (DESIGN 4.2); Polars refuses the cast
+        return "nan_or_inf_to_int"
+    if exc_name(ex) == "InvalidOperationError" and "conversion from `f64` to `i64` failed" in msg and ref is not None:
+        from .refsem import UNDEF
+
+        if any(v is UNDEF for t in ref.vars.values() for col in t.data.values() for v in col):
+            # the reference has an out-of-domain cell (here: a float beyond the Int64 range); Polars refuses the
+            # strict cast for the whole column
+            return "float_to_int_overflow"  # NaN / infinity are outside the value domain (DESIGN 4.2); Polars refuses the cast
     if exc_name(ex) == "InvalidOperationError" and "joining with repeated key names" in msg:
         return "polars_repeated_join_key"  # Polars limitation on join keys (join docstring note)
     return None
